@@ -13,6 +13,7 @@ import KmipModel.Stream
 import Driver.IoStackIO
 import KmipModel.DecodeStack
 import KmipModel.DecodeCost
+import KmipModel.Wire
 import KmipModel.Io
 /-
   kvdriver: one request per input line, one reply per output line.  Runs the executable model and the
@@ -144,8 +145,48 @@ def clientSend (op : Nat) (bs : Bytes) (dv : Bool) : String :=
     let r := Client.send true true op reply
     showSend (if dv then Client.discoverVersions isDVResponse r else r)
 
+/-- split a token list at the `|` tokens -/
+def splitBars : List String → List (List String)
+  | [] => [[]]
+  | "|" :: rest => [] :: splitBars rest
+  | t :: rest =>
+    match splitBars rest with
+    | [] => [[t]]
+    | g :: gs => (t :: g) :: gs
+
+/-- one handler outcome of the `wireresp` command: `ok <FV tokens of a DynV>` | `fail REASON MSGHEX` -/
+def parseHRes : List String → Option Wire.HRes
+  | "ok" :: rest =>
+    match parseFV rest with
+    | some (.dyn d, []) => some (.success d)
+    | _ => none
+  | ["fail", r, m] => (fromHex m).map fun mb => .failed r.toNat! mb
+  | _ => none
+
+def wireZExt : Val := zeroSD KmipGen.sd_MessageExtension
+def wireZNonce : Val := zeroSD KmipGen.sd_Nonce
+
+/-- wireresp CLOCK AUTHOK REQHEX | RES | RES …: the bytes Server.handleBatch + Encode produce for the request bytes -/
+def wireResp (clock : Nat) (authOk : Bool) (reqBytes : Bytes) (res : List Wire.HRes) : String :=
+  match decodeSD KmipGen.sd_Request reqBytes with
+  | .ok (rv, _, _) =>
+    let H : Nat → Wire.ItemIn → Wire.HRes := fun i _ => (res[i]?).getD (.failed 0x100 [])
+    match Wire.handleBatch wireZNonce wireZExt clock authOk H rv with
+    | none => "none"
+    | some resp => showOutcomeBytes (encodeSD KmipGen.sd_Response resp)
+  | _ => "undecodable"
+
 def step (line : String) : String :=
   match tokens line with
+  -- wirereq MAJ MIN OP <FV tokens of the payload>: the bytes Client.Send writes
+  | "wirereq" :: maj :: min :: op :: rest =>
+    match parseFV rest with
+    | some (.dyn d, []) => showOutcomeBytes (encodeSD KmipGen.sd_Request (Wire.mkRequest wireZExt (maj.toNat!, min.toNat!) op.toNat! d))
+    | _ => "bad-op"
+  | "wireresp" :: clock :: authOk :: hex :: rest =>
+    match fromHex hex, ((splitBars rest).filter (fun g => !g.isEmpty)).mapM parseHRes with
+    | some bs, some res => wireResp clock.toNat! (authOk == "1") bs res
+    | _, _ => "bad-op"
   -- enctop <FV tokens of a DynV>: Encoder.Encode(v)
   | "enctop" :: rest =>
     match parseFV rest with
